@@ -278,7 +278,10 @@ def rule_errd(bodies, rule='ERRD', exceptions=None, extra_callee_pred=None, only
             key = '%s|%s|%s|#%d' % (rule, body.name, ck, n)
             cls, detail = consume(body, c)
             exk = (body.name, ck)
-            if cls in ACCEPT:
+            from r_panic import TOTAL_CTORS
+            if cls in ('defaulted', 'dropped', 'tested-only') and ck in TOTAL_CTORS:
+                obs.append(ok(rule, key, 'result of %s is %s, but the constructor is total: %s' % (ck, cls, TOTAL_CTORS[ck]), c.where(), cls='total'))
+            elif cls in ACCEPT:
                 obs.append(ok(rule, key, 'result of %s is %s (%s)' % (ck, cls, detail), c.where(), cls=cls))
             elif exk in exceptions and exceptions[exk][0] == cls:
                 obs.append(assumed(rule, key, 'result of %s is %s — confirmed exception: %s' % (ck, cls, exceptions[exk][1]), c.where(), cls=cls))
